@@ -17,8 +17,12 @@ import (
 	"strconv"
 	"strings"
 	"testing"
+	"time"
 
+	"go.opentelemetry.io/collector/component/componenttest"
+	"go.opentelemetry.io/collector/consumer/consumertest"
 	"go.opentelemetry.io/collector/exporter/exporterhelper/internal/sizer"
+	"go.opentelemetry.io/collector/exporter/exportertest"
 	"go.opentelemetry.io/collector/pdata/pcommon"
 	"go.opentelemetry.io/collector/pdata/plog"
 	"go.opentelemetry.io/collector/pdata/pmetric"
@@ -573,6 +577,113 @@ func c04Signals() []*c04Sig {
 	return []*c04Sig{logs, traces, metrics}
 }
 
+// ---------------------------------------------------------------------------------------------------
+// end to end: REAL requests through the REAL exporter (queue + defaultBatcher + MergeSplit), direct oracle only.
+// A few requests are sent to an exporter built by NewLogs / NewTraces with a batching queue (items or bytes sizer,
+// min_size at, next to, or well below max_size — all accepted by validation), the exporter is shut down (which
+// drains the queue and flushes the parked batch) and the multiset of (item, resource context, scope context)
+// that reached the push function must be the one that was sent; nothing may arrive twice.
+// ---------------------------------------------------------------------------------------------------
+func c04EndToEnd(out *vOut, g *c04Gen, traces bool) {
+	g.m4, g.prof = false, false
+	szt := g.r.Pick(1, 2)
+	n := 2 + g.r.Intn(4)
+	trees := make([][]gRes, n)
+	sizes := make([]int, n)
+	total, maxAlone := 0, 0
+	sigs := c04Signals()
+	sg := sigs[0]
+	if traces {
+		sg = sigs[1]
+	}
+	for i := range trees {
+		if i == 0 {
+			trees[i] = g.tree(1, 1, 2) // a small first request is likely to be parked below min_size
+		} else {
+			trees[i] = g.tree(3, 3, 5)
+		}
+		sizes[i] = sg.obs(sg.build(trees[i]), szt).size
+		total += sizes[i]
+	}
+	max := 0
+	if szt == 0 {
+		max = 1 + g.r.Intn(6)
+	} else {
+		maxAlone = c04MaxAlone(sg, trees...)
+		max = maxAlone + 8 + g.r.Intn(total/n+40)
+	}
+	min := max - []int{0, 0, 1, 2, max / 4, max / 2, max}[g.r.Intn(7)]
+	qCfg := NewDefaultQueueConfig()
+	qCfg.Sizer = RequestSizerTypeItems
+	if szt == 1 {
+		qCfg.Sizer = RequestSizerTypeBytes
+	}
+	qCfg.QueueSize = 1 << 30
+	qCfg.NumConsumers = 1 + g.r.Intn(3)
+	qCfg.Batch = &BatchConfig{FlushTimeout: 10 * time.Minute, MinSize: int64(min), MaxSize: int64(max)}
+	if qCfg.Validate() != nil || qCfg.Batch.Validate() != nil {
+		out.Stat("e2e.config_rejected", 1)
+		return
+	}
+	var want, got []string
+	ctx := context.Background()
+	set := exportertest.NewNopSettings(exportertest.NopType)
+	detail := fmt.Sprintf("signal=%s sizer=%d min=%d max=%d requests=%v", sg.name, szt, min, max, sizes)
+	nb := 0
+	if traces {
+		sink := &consumertest.TracesSink{}
+		exp, err := NewTraces(ctx, set, &struct{}{}, sink.ConsumeTraces, WithQueue(qCfg))
+		if err != nil || exp.Start(ctx, componenttest.NewNopHost()) != nil {
+			out.Oracle("e2e-setup", "", detail)
+			return
+		}
+		for _, t := range trees {
+			want = append(want, sg.obs(sg.build(t), szt).flat(true)...)
+			if err := exp.ConsumeTraces(ctx, c04BuildTraces(t)); err != nil {
+				out.Oracle("e2e-send", "", detail+" err="+err.Error())
+			}
+		}
+		if err := exp.Shutdown(ctx); err != nil {
+			out.Oracle("e2e-shutdown", "", detail+" err="+err.Error())
+		}
+		for _, td := range sink.AllTraces() {
+			got = append(got, c04ObsTraces(newTracesRequest(td), szt).flat(true)...)
+			nb++
+		}
+	} else {
+		sink := &consumertest.LogsSink{}
+		exp, err := NewLogs(ctx, set, &struct{}{}, sink.ConsumeLogs, WithQueue(qCfg))
+		if err != nil || exp.Start(ctx, componenttest.NewNopHost()) != nil {
+			out.Oracle("e2e-setup", "", detail)
+			return
+		}
+		for _, t := range trees {
+			want = append(want, sg.obs(sg.build(t), szt).flat(true)...)
+			if err := exp.ConsumeLogs(ctx, c04BuildLogs(t)); err != nil {
+				out.Oracle("e2e-send", "", detail+" err="+err.Error())
+			}
+		}
+		if err := exp.Shutdown(ctx); err != nil {
+			out.Oracle("e2e-shutdown", "", detail+" err="+err.Error())
+		}
+		for _, ld := range sink.AllLogs() {
+			got = append(got, c04ObsLogs(newLogsRequest(ld), szt).flat(true)...)
+			nb++
+		}
+	}
+	if !c04SameMultiset(want, got) {
+		out.Oracle("e2e-conservation", "", fmt.Sprintf("%s sent=%d exported=%d batches=%d", detail, len(want), len(got), nb))
+	}
+	out.Stat("e2e.histories", 1)
+	out.Stat("e2e.batches", nb)
+	if max-min <= 2 {
+		out.Stat("e2e.min_at_or_next_to_max", 1)
+	}
+	if szt == 1 {
+		out.Stat("e2e.bytes", 1)
+	}
+}
+
 func TestVerifC04(t *testing.T) {
 	out := vOpen()
 	defer out.Close()
@@ -591,6 +702,9 @@ func TestVerifC04(t *testing.T) {
 	}
 	for i := 0; i < vBudget(60, 10); i++ {
 		c04One(out, sigs[i%3], g, 1, 2)
+	}
+	for i := 0; i < vBudget(160, 8); i++ {
+		c04EndToEnd(out, g, i%2 == 1)
 	}
 	// DeltaSize / sov: exhaustive against an independent closed form on 0..2^21+2^10 (direct oracle), and the
 	// varint boundaries + random 62-bit values + negative ints as correspondence cases for the Coq definition
